@@ -6,23 +6,30 @@ CONFIG = dict(
                "model of TableManager's subscription machinery: per-shard snapshot invariant, exact reconstruction of the "
                "pre- and post-policy Adj-RIB-In by snapshot + live events once writers finish, last event per (peer, prefix, "
                "path-id) = current state, PeerDown forwarded only after PeerUp, and the master theorem that the C18 reference "
-               "checker accepts every model schedule.  The model is tied to the code by running the REAL TableManager (one OS "
-               "thread per session/subscriber) under a deterministic scheduler that releases one thread at a time between the "
-               "cfg-guarded scheduling points in table_manager.rs, on the same schedules as the model, diffing every received "
-               "event history, return value and the final iter_reach/iter_reach_post; the reference checker is the oracle on "
-               "the real observations; the real bmp.rs apply_snapshot folds the snapshot phase and the real send_peer_up / send_peer_down "
-               "forward every live PeerUp/PeerDown event onto a real loopback BMP connection whose bytes are decoded as the observation.",
-    level_note="Trusted: Lean kernel; axioms propext/Classical.choice/Quot.sound; hand-written model (checked only by the "
-               "correspondence stream); harness glue (session teardown = unregister_peer then peer_down transcribed from "
-               "event/mod.rs; fresh Source + prefix counter per session; Loc-RIB/Adj-RIB-Out/EOR events dropped from the "
-               "observation; event order across different keys projected away).  Modelled, not verified: memory ordering below "
-               "Mutex/ArcSwap operations; interleavings inside a critical section (no scheduling point between the two notify "
-               "calls and the table mutation; the proof treats the section body as one step, which is sound because every sender "
-               "of a key's events holds that key's shard lock); the load-to-send window of peer_up/peer_down; BmpClient::serve's "
-               "use of global peer state, TCP back-pressure; GR-retained routes and their purge (DESIGN 4.0, remark S28b).",
+               "checker accepts every model schedule of every case without purge-class operations and without BMP connections "
+               "(the full statement is refuted in Lean by the purge-class witness, finding S28b).  The model is tied to the code "
+               "by running the REAL TableManager, the REAL Global peer table, the REAL PeerSession::finish_session teardown and "
+               "the REAL BmpClient::serve (on a loopback TCP connection whose bytes are decoded) under a deterministic scheduler "
+               "that releases one OS thread at a time between the cfg-guarded scheduling points in table_manager.rs, on the same "
+               "schedules as the model, diffing every received event history, every BMP message written, return values and the "
+               "final iter_reach/iter_reach_post; the reference checker is the oracle on the real observations.",
+    level_note="Theorem-backed: channel subscribers (TableManager::subscribe) under insert/remove/soft-reset-in (any thread)/"
+               "policy change/session up/non-retaining down/subscribe/unsubscribe.  Hypothesis-backed (model = implementation on the "
+               "generated stream + oracle on the real bytes, no theorem): the BMP-connection clause (what BmpClient::serve writes = "
+               "RIB) and the purge class (GR-retaining session end, drop_stale_families, drop_families, mark_llgr_stale, "
+               "drop_llgr_stale_families), where the property fails (open findings S28b, S28e).  Trusted: Lean kernel; axioms "
+               "propext/Classical.choice/Quot.sound; hand-written model; harness glue (session establishment = session_addrs store "
+               "then peer_up, transcribed from apply_outputs/on_established because on_established needs a live TCP stream; fresh "
+               "Source + prefix counter per session; import_policy.store as the common end of every policy-assignment path; BMP "
+               "decoding of the loopback bytes with the repo's own BGP parser; Loc-RIB/Adj-RIB-Out/EOR events dropped; event order "
+               "across different keys projected away).  Modelled, not verified: memory ordering below Mutex/ArcSwap operations; "
+               "interleavings inside a critical section between the two notify calls and the table mutation; the load-to-send window "
+               "inside peer_up/peer_down; the window between EndOfSnapshot and serve's read of the peer table; add-path peers "
+               "(register_peer is never called, the addpath flag of every event is checked to be false); MRT and gRPC watch consumers.",
     lean_modules=["Rbgp.Monitor.Props"],
     theorems=[
-        "Rbgp.Monitor.Props.check_run_ok",
+        "Rbgp.Monitor.Props.check_run_ok_partial",
+        "Rbgp.Monitor.Props.C18_full_fails",
         "Rbgp.Monitor.Props.reachable_inv",
         "Rbgp.Monitor.Props.snapshot_invariant",
         "Rbgp.Monitor.Props.reconstruct_exact",
@@ -36,40 +43,47 @@ CONFIG = dict(
     harness=dict(kind="daemon", test="event::verif_event::c18::verif_main"),
     profiles=["debug"],
     n_quick=3000, n_thorough=120000, shards=12,
-    nontrivial_re=r"\(hist \(\([0-9wd]|\(\(\) \([0-9wd]",
-    rule="random cases: 1-3 shards, 1-3 writer sessions (up / ins / rem / soft-reset-in / import-policy change / down, colliding "
-         "2x2x2 key domain per writer, prefix limit 0-2) and 1-2 subscribers (subscribe with/without snapshot, unsubscribe, "
-         "re-subscribe), run under a random schedule at coarse (critical sections atomic, bulk operations yield between "
-         "shards) or fine (every scheduling point) granularity; plus every subscription point of sequential histories; "
-         "thorough tier adds ALL schedules of curated 2-shard x 2-writer x 3-op programs with one subscriber (coarse) and of "
-         "tiny programs at fine granularity; non-trivial = some subscription received a route event; distinct = distinct case line",
+    nontrivial_re=r"\(hist \(\([0-9wd]|\(\(\) \([0-9wd]|\(whist \(\([0-9wd]",
+    rule="random cases: 1-3 shards, 1-3 writer sessions (up / ins / rem over IPv4 and IPv6 prefixes with distinct next hops / "
+         "soft-reset-in of any peer from any thread / import-policy change / down, colliding 2x3x2 key domain per writer, prefix "
+         "limit 0-2) and 1-2 subscribers (channel subscription with/without snapshot, unsubscribe, re-subscribe, or a real BMP "
+         "connection), run under a random schedule at coarse (critical sections atomic, bulk operations yield between shards) or "
+         "fine (every scheduling point: before lock, lock acquired, list loaded, guard dropped, before peer_up/peer_down) "
+         "granularity; targeted soft-reset races; several sessions going up and down around the subscription point; the purge "
+         "class (GR-retaining end, stale/LLGR purges, drop_families); every subscription point of sequential histories; a "
+         "malformed stream; thorough tier adds ALL schedules of curated 2-shard x 2-writer x 3-op programs with a snapshot "
+         "subscriber, a no-snapshot subscriber, a BMP connection, a prefix limit and an unsubscribe (coarse) and of tiny programs "
+         "at fine granularity; non-trivial = some subscription received a route event; distinct = distinct case line",
     expect_tokens=["limit", "(up ", "(down ", "eos", " w", " d", "(fwd (up", "(down 0)))) (rib", "t f (ctl", " f t (ctl",
-                   "(none none)", "(rows 0 0)", "(hist)"],
+                   "(none none)", "(rows 0 0)", "(hist)", "(bmp ", "(wctl ((up 0) (down 0))", "(wctl ((up 0))", "31", "20"],
     trusted_base=["model Rbgp/Monitor/Model.lean of daemon/src/table_manager.rs (subscribe/unsubscribe/insert_route/remove_route/"
-                  "soft_reset_in/unregister_peer/peer_up/peer_down) and of bmp.rs apply_snapshot/track_peer_up/track_peer_down",
+                  "soft_reset_in/unregister_peer/drop_families/drop_stale_families/mark_llgr_stale/drop_llgr_stale_families/peer_up/"
+                  "peer_down) and of bmp.rs BmpClient::serve (apply_snapshot, PeerUp burst, flush_peer_snapshot, send_peer_up/down)",
                   "harness/daemon/c18.rs: deterministic scheduler over the cfg(osrg_rustybgp_verif) scheduling points "
-                  "(table_manager::verif_sched); session teardown order transcribed from event/mod.rs; prefixes chosen per shard by "
-                  "probing the real dealer; harness/daemon/c18_bmp.rs exposes the private bmp.rs consumer functions: the PeerUp/PeerDown "
-                  "message construction of BmpClient::serve's live loop is transcribed, send_peer_up/send_peer_down are the real ones writing "
-                  "to a real Framed<TcpStream, BmpCodec>; the forwarded stream is read back from the peer socket (BMP type + per-peer address)"],
+                  "(table_manager::verif_sched: LOCK, ACQUIRED, LOADED, UNLOCKED, REGISTERED, NOTIFY; lock ownership is taken from the "
+                  "real guard's ACQUIRED/UNLOCKED reports); a subscriber list used under a shard lock must have the length of the list "
+                  "of that moment (LOADED carries it); prefixes chosen per shard by probing the real dealer",
+                  "harness/daemon/c18_bmp.rs: the real BmpClient::serve polled to quiescence on a loopback connection (pending with "
+                  "nothing new on the wire four polls in a row), its bytes decoded with the repo's BGP parser; for channel subscribers "
+                  "the PeerUp/PeerDown message construction of serve's live loop is transcribed and send_peer_up/send_peer_down are real"],
     modelled_not_verified=["memory ordering below the granularity of Mutex / ArcSwap operations (sequential consistency assumed at the "
                            "scheduling points)",
                            "sub-critical-section interleavings of channel sends (events of other shards / other peers landing between "
                            "the pre- and post-policy notification of one insert): they commute in the fold",
                            "the window between subscribers.load() and the sends inside peer_up/peer_down (one atomic step in the model)",
-                           "BmpClient::serve as a whole (PeerUp reconstruction from global peer state, flush per established peer, TCP "
-                           "back-pressure); only apply_snapshot and send_peer_up/send_peer_down (hence track_peer_up/down) are executed",
-                           "GR-retained stale routes and their purge (outside the quantifier by DESIGN 4.0; remark S28b witnessed in "
-                           "corpus/C18/remarks.case comments and known-findings.json)"],
+                           "the window between EndOfSnapshot and serve's read of the global peer table (one atomic step)",
+                           "session establishment (on_established: register_peer + peer_up) is reduced to session_addrs store + peer_up; "
+                           "add-path peers, MRT dumper and gRPC watch consumers are not exercised",
+                           "the BMP-connection clause and the purge class are hypothesis-backed (no theorem)"],
     assumptions=["a peer address is owned by one session task at a time (writer thread i = peer i): sessions of the same peer are sequential",
-                 "a session teardown is unregister_peer on every shard followed by peer_down, as event/mod.rs does"],
+                 "the BMP-connection clause is judged only when every session announces routes between its up and its down"],
     claimed=True,
 )
 
 POLS = ["none", "reject", "tag"]
 
 
-def w_ops(r, n, nops, structured):
+def w_ops(r, n, nops, structured, writers=None):
     ops = []
     up = False
     if structured and r.chance(4, 5):
@@ -77,13 +91,21 @@ def w_ops(r, n, nops, structured):
     for _ in range(nops):
         x = r.weighted([("ins", 10), ("rem", 4), ("sr", 2), ("pol", 2), ("down", 2), ("up", 1)])
         if x == "ins":
-            ops.append("(ins %d %d %d %d)" % (r.below(n), r.below(2), r.below(2), 1 + r.below(9)))
+            if structured and not up:
+                ops.append("up"); up = True
+            ops.append("(ins %d %d %d %d)" % (r.below(n), r.pick([0, 0, 1, 2]), r.below(2), 1 + r.below(9)))
         elif x == "rem":
-            ops.append("(rem %d %d %d)" % (r.below(n), r.below(2), r.below(2)))
+            if structured and not up:
+                continue
+            ops.append("(rem %d %d %d)" % (r.below(n), r.pick([0, 0, 1, 2]), r.below(2)))
         elif x == "pol":
             ops.append("(pol %s)" % r.pick(POLS))
         elif x == "down":
+            if structured and not up:
+                continue
             ops.append("down"); up = False
+        elif x == "sr" and writers and r.chance(1, 2):
+            ops.append("(sr %d)" % r.pick(writers))
         elif x == "up":
             if structured and up:
                 continue
@@ -96,6 +118,8 @@ def w_ops(r, n, nops, structured):
 
 
 def s_ops(r):
+    if r.chance(1, 3):
+        return r.pick([["bmp"], ["bmp"], ["(sub t)", "bmp"], ["bmp", "(sub f)"]])
     x = r.below(10)
     if x < 5:
         return ["(sub t)"]
@@ -127,6 +151,10 @@ def rand_sched(r, nth, length):
 
 
 def case_str(n, gran, limit, threads, sched):
+    if any(o == "bmp" for _, ops in threads for o in ops):
+        # a BMP connection of a peer without ADD-PATH carries no path ids
+        import re as _re
+        threads = [(k, [_re.sub(r"^\((ins|rem) (\d+) (\d+) \d+", r"(\1 \2 \3 0", o) for o in ops]) for k, ops in threads]
     return "(case (cfg %d %d %d) (threads %s) (sched %s))" % (
         n, gran, limit, " ".join("(%s)" % " ".join([k] + ops) for k, ops in threads), " ".join(map(str, sched)))
 
@@ -138,13 +166,13 @@ def gen_random(r):
     nw = 1 + r.below(3)
     ns = 1 + r.below(2) if nw < 3 else 1
     threads = []
+    rev = r.chance(1, 3)
+    # peer ids = thread index; writers first unless reversed
+    widx = list(range(ns, ns + nw)) if rev else list(range(nw))
     for _ in range(nw):
-        threads.append(("w", w_ops(r, n, 1 + r.below(r.pick([3, 5, 8])), r.chance(5, 6))))
-    for _ in range(ns):
-        threads.append(("s", s_ops(r)))
-    # interleave thread positions a little (peer ids = thread index)
-    if r.chance(1, 3):
-        threads.reverse()
+        threads.append(("w", w_ops(r, n, 1 + r.below(r.pick([3, 5, 8])), r.chance(5, 6), widx)))
+    sl = [("s", s_ops(r)) for _ in range(ns)]
+    threads = sl + threads if rev else threads + sl
     sched = rand_sched(r, len(threads), r.pick([10, 30, 80]))
     return case_str(n, gran, limit, threads, sched)
 
@@ -179,19 +207,37 @@ def gen_peers(r):
     threads = []
     for _ in range(nw):
         ops = []
-        for _ in range(1 + r.below(4)):
+        up = False
+        for _ in range(1 + r.below(5)):
             x = r.below(10)
-            if x < 4:
-                ops.append("up")
-            elif x < 8:
-                ops.append("down")
+            if not up:
+                ops.append("up"); up = True
+            elif x < 5:
+                ops.append("down"); up = False
             else:
-                ops.append("(ins %d 0 0 %d)" % (r.below(n), 1 + r.below(9)))
+                ops.append("(ins %d %d 0 %d)" % (r.below(n), r.pick([0, 2]), 1 + r.below(9)))
         threads.append(("w", ops))
-    threads.append(("s", r.pick([["(sub f)"], ["(sub t)"], ["(sub f)", "unsub", "(sub t)"], ["(sub t)", "unsub", "(sub f)"]])))
+    threads.append(("s", r.pick([["(sub f)"], ["(sub t)"], ["bmp"], ["bmp"], ["(sub f)", "unsub", "(sub t)"], ["(sub t)", "unsub", "bmp"]])))
     if r.chance(1, 2):
         threads.reverse()
     return case_str(n, 0, 0, threads, [r.below(len(threads)) for _ in range(8 + r.below(20))])
+
+
+def gen_purge(r):
+    """the purge class: GR-retaining session end, stale / LLGR purges, drop_families, around a subscriber"""
+    n = r.pick([1, 2])
+    ops = ["up"]
+    for _ in range(1 + r.below(3)):
+        ops.append("(ins %d %d %d %d)" % (r.below(n), r.pick([0, 1, 2]), r.below(2), 1 + r.below(9)))
+    tail = r.pick([["gdown", "purge"], ["gdown", "up", "(ins 0 0 0 3)", "purge"], ["gdown", "dropfam"],
+                   ["gdown", "llgr", "lpurge"], ["dropfam"], ["gdown", "up", "purge", "down"], ["llgr", "lpurge"]])
+    ops += tail
+    threads = [("w", ops), ("s", r.pick([["(sub t)"], ["(sub t)"], ["bmp"], ["(sub f)"]]))]
+    if r.chance(1, 3):
+        threads.insert(1, ("w", w_ops(r, n, 1 + r.below(3), True, [0, 1])))
+    lead = r.below(len(ops) * (2 if n == 2 else 1) + 3)
+    sched = [0] * lead + [len(threads) - 1] * (2 + r.below(3)) + [r.below(len(threads)) for _ in range(10)]
+    return case_str(n, r.below(2), 0, threads, sched)
 
 
 def gen_sequential_points(r):
@@ -224,13 +270,15 @@ def interleavings(counts):
 
 
 def segs_coarse(op, n):
-    if op in ("up", "unsub") or op.startswith("(ins") or op.startswith("(rem") or op.startswith("(pol"):
+    if op == "unsub" or op.startswith("(ins") or op.startswith("(rem") or op.startswith("(pol"):
         return 1
-    if op == "sr":
+    if op == "up":
+        return 2
+    if op == "sr" or op.startswith("(sr"):
         return n
     if op == "down":
         return n + 1
-    if op == "(sub t)":
+    if op in ("(sub t)", "bmp"):
         return n + 1
     if op == "(sub f)":
         return 2
@@ -248,14 +296,26 @@ EXH_PROGRAMS = [
 ]
 
 
+EXH_MORE = [
+    # (limit, writer 0, writer 1, subscriber): no-snapshot subscriber, BMP connection, prefix limit, unsubscribe
+    (0, ["(ins 0 0 0 1)", "(ins 1 0 0 2)", "(rem 0 0 0)"], ["(ins 0 0 0 3)", "(ins 1 0 0 4)", "(rem 1 0 0)"], ["(sub f)"]),
+    (0, ["up", "(ins 0 0 0 1)", "down"], ["up", "(ins 1 2 0 4)"], ["bmp"]),
+    (0, ["up", "(ins 1 0 0 1)", "down", "up"], ["(pol tag)"], ["bmp"]),
+    (1, ["(ins 0 0 0 1)", "(ins 1 0 0 2)", "(rem 0 0 0)"], ["(ins 0 1 0 3)", "(ins 1 0 0 4)", "(rem 0 1 0)"], ["(sub t)"]),
+    (0, ["(ins 0 0 0 1)", "(ins 1 0 0 2)", "(rem 0 0 0)"], ["(ins 0 0 0 3)", "(rem 0 0 0)", "(ins 1 2 0 4)"], ["(sub t)", "unsub"]),
+    (0, ["(ins 0 0 0 1)", "(pol reject)", "(rem 0 0 0)"], ["(sr 0)", "(ins 1 0 0 4)"], ["(sub t)"]),
+]
+
+
 def gen_exhaustive():
     out = []
     n = 2
-    for w0, w1 in EXH_PROGRAMS:
-        threads = [("w", w0), ("w", w1), ("s", ["(sub t)"])]
+    progs = [(0, w0, w1, ["(sub t)"]) for w0, w1 in EXH_PROGRAMS] + EXH_MORE
+    for limit, w0, w1, sub in progs:
+        threads = [("w", w0), ("w", w1), ("s", sub)]
         counts = [sum(segs_coarse(o, n) for o in ops) for _, ops in threads]
         for sch in interleavings(counts):
-            out.append(case_str(n, 0, 0, threads, sch))
+            out.append(case_str(n, 0, limit, threads, sch))
     # fine granularity, tiny programs: every 0/1 string long enough to finish both threads
     tiny = [
         (["(ins 0 0 0 1)"], ["(sub t)"]),
@@ -301,6 +361,8 @@ def gen(seed, n, tier):
             out.append(gen_softreset(r))
         elif x < 84:
             out.append(gen_peers(r))
+        elif x < 88:
+            out.append(gen_purge(r))
         elif x < 97:
             out += gen_sequential_points(r)
         else:
